@@ -63,7 +63,7 @@ EMPTY = z3.StringVal("")
 SPEC_FUNCS = (
     "joined old count n_count first_start last_end chain_ok span_ok joined_values "
     "implies is_none appended length seq_of at unchanged strip lstrip rstrip isspace "
-    "startswith endswith contains substr ite same present is_ctor or_empty field refs_closed writes_only has_op declares_param defines chars_subset differs_only_at is_suffix"
+    "startswith endswith contains substr ite same present is_ctor or_empty field refs_closed writes_only has_op declares_param defines chars_subset differs_only_at is_suffix touched_exactly_one_marked"
 ).split()
 
 
@@ -288,6 +288,8 @@ class Engine(object):
             return VCtor(None, None)
         if kind == "map" and st is not None:
             return st.alloc(MapObj())
+        if isinstance(kind, tuple) and len(kind) == 2 and kind[0] == "map" and st is not None:
+            return st.alloc(MapObj(value_kind=kind[1]))
         if isinstance(kind, (tuple, list)) and st is not None:
             return VTuple([self.fresh_value(k, "%s[%d]" % (name, i), st) for i, k in enumerate(kind)])
         if isinstance(kind, str) and kind.startswith("list:seq:") and st is not None:
@@ -336,7 +338,10 @@ class Engine(object):
                     raise OutOfSubset(
                         "list %r is empty at a havoc point and the contract declares no view for it" % name
                     )
-                n, asm = ListObj.fresh(k, name)
+                if k.startswith("seq"):
+                    n, asm = ListObj.fresh("seq", name, {"str": S, "int": I}.get(k[4:], Opaque))
+                else:
+                    n, asm = ListObj.fresh(k, name)
             else:
                 n, asm = o.fresh_like(name)
             st.heap[ref.rid] = n
@@ -461,6 +466,9 @@ class Engine(object):
     def may_mutate(self, e, name):
         """Could evaluating e mutate the object bound to `name`? (syntactic over-approximation)"""
         for n in ast.walk(e):
+            # a bound mutator taken as a value (`xs.append` handed to map / deque) escapes
+            if isinstance(n, ast.Attribute) and isinstance(n.value, ast.Name) and n.value.id == name and n.attr in self.MUTATORS:
+                return True
             if isinstance(n, ast.Call):
                 f = n.func
                 if isinstance(f, ast.Attribute) and isinstance(f.value, ast.Name) and f.value.id == name:
@@ -854,10 +862,16 @@ class Engine(object):
                 hi = None if isinstance(idx.hi, VNone) else idx.hi.z
                 outs.append((s, VStr(self.py_slice(base.z, lo, hi))))
                 continue
-            if isinstance(base, VRef) and isinstance(s.heap[base.rid], MapObj) and isinstance(idx, VStr):
-                hit = [v_ for k_, v_ in s.heap[base.rid].entries if k_.eq(idx.z)]
+            if isinstance(base, VRef) and isinstance(s.heap[base.rid], MapObj) and isinstance(idx, (VStr, VOpaque)):
+                mo = s.heap[base.rid]
+                hit = [v_ for k_, v_ in mo.entries + mo.fetched if k_.eq(idx.z)]
                 if not hit:
-                    raise Unsupported("read of a symbolic-key map entry that was not written in this function")
+                    if mo.value_kind is None:
+                        raise Unsupported("read of a symbolic-key map entry that was not written in this function")
+                    # an entry of the unknown base: materialised once, later reads / stores see the same object (KeyError path ends)
+                    v_new = self.fresh_value(mo.value_kind, "entry", s)
+                    s.heap[base.rid] = MapObj(mo.entries, mo.value_kind, mo.fetched + [(idx.z, v_new)])
+                    hit = [v_new]
                 outs.append((s, hit[-1]))
                 continue
             if isinstance(base, VRef):
@@ -1269,8 +1283,11 @@ class Engine(object):
                 return [(st, VInt(r))]
             if m in ("find", "rfind") and 1 <= len(args) <= 3 and isinstance(args[0], VStr):
                 return [(st, self.str_find(m, s, args, st))]
-            if m == "format" and not args and z3.is_string_value(s):
-                return [(st, self.str_format(s.as_string(), kwargs))]
+            if m == "format" and z3.is_string_value(s):
+                kw2 = dict(kwargs)
+                for i_, a_ in enumerate(args):
+                    kw2[str(i_)] = a_
+                return [(st, self.str_format(s.as_string(), kw2))]
             if m == "replace" or m == "split" or m == "splitlines" or m == "lower" or m == "title":
                 return [(st, self.opaque_call("str." + m, [recv] + list(args), st, "str" if m in ("replace", "lower", "title") else "opaque"))]
         if isinstance(recv, VRef):
@@ -1375,9 +1392,13 @@ class Engine(object):
         import string
 
         parts = []
+        auto = 0
         for lit, field, spec, conv in string.Formatter().parse(tpl):
             if lit:
                 parts.append(z3.StringVal(lit))
+            if field == "":
+                field = str(auto)  # automatic positional numbering
+                auto += 1
             if field is not None:
                 if spec or conv or field not in kwargs:
                     raise Unsupported("format field %r" % field)
@@ -1519,6 +1540,18 @@ class Engine(object):
         if name == "is_none":
             c = self.equal(args[0], VNone(), st)
             return VBool(c if c is not None else z3.BoolVal(False))
+        if name == "touched_exactly_one_marked":
+            # touched_exactly_one_marked(map, prefix): exactly one entry of the map was written or updated in place, and its
+            # 'doc' now starts with `prefix`
+            mo = st.heap[args[0].rid]
+            touched = mo.entries + mo.fetched
+            if len(touched) != 1:
+                return VBool(False)
+            k_, v_ = touched[0]
+            rec = st.heap[v_.rid] if isinstance(v_, VRef) else None
+            if not isinstance(rec, RecordObj) or "doc" not in rec.fields or not isinstance(rec.fields["doc"][1], VStr):
+                return VBool(False)
+            return VBool(z3.And(rec.fields["doc"][0], z3.PrefixOf(args[1].z, rec.fields["doc"][1].z)))
         if name in ("refs_closed", "writes_only", "has_op", "declares_param", "defines"):
             return self.tree_spec(name, args, st)
         if name == "is_suffix":
@@ -1824,8 +1857,9 @@ class Engine(object):
         if isinstance(target, ast.Subscript) and not isinstance(target.slice, ast.Slice):
             outs = []
             for s, (base, idx) in self.eval_seq([target.value, target.slice], st):
-                if isinstance(base, VRef) and isinstance(s.heap[base.rid], MapObj) and isinstance(idx, VStr):
-                    s.heap[base.rid] = MapObj(s.heap[base.rid].entries + [(idx.z, v)])
+                if isinstance(base, VRef) and isinstance(s.heap[base.rid], MapObj) and isinstance(idx, (VStr, VOpaque)):
+                    mo = s.heap[base.rid]
+                    s.heap[base.rid] = MapObj(mo.entries + [(idx.z, v)], mo.value_kind, mo.fetched)
                     outs.append(s)
                     continue
                 if isinstance(base, VRef):
@@ -2404,7 +2438,7 @@ def _engine_verify_block(self, contract):
     fnode = contract.fnode()
     if fnode is None:
         raise OutOfSubset("function %s not found in current source" % contract.src)
-    fnode = copy.deepcopy(fnode)
+    fnode = self.rewrite_idioms(copy.deepcopy(fnode))
     self.contract_fnode = fnode
     self.number_loops(fnode)
     chosen = None
